@@ -17,20 +17,22 @@
      G5 a symbol value's UInt has at most 8 octets                                                 (limit, F4)
      G6 the field name of a NOP pad inside a struct is a defined symbol ID         (divergence F3, not repaired)
      G7 no top-level $ion_symbol_table::null.struct                                              (known corner)
-     G8 local symbol tables ([lst_ok]), one conjunct per excluded shape:
-        - every field name of the table struct has known text     (NEW: the reader fails on $0 / unknown text)
-        - at most one field named symbols, at most one named imports   (reader fails; SpecBin to be corrected)
-        - the entries of a symbols list are strings               (known: C10/symbols-nonstring-empty-text)
-        - an imports list holds no import structs  (no catalog: the reader fails on an import without a usable
-          max_id [SpecBin to be corrected], on a version beyond int32 [NEW], on a field name without text [NEW];
-          of repeated name / max_id fields it takes the last, SpecBin the first [NEW, silent])
-        - the resulting table has fewer than 2^63 symbols                                              (limit)
+     G8 local symbol tables ([lst_ok]; Bin/SpecBin.v itself rejects a repeated symbols / imports field, an import
+        without usable max_id, max_id:null.int), one conjunct per reader deviation or limit:
+        - every field name of the table struct and of an import struct has known text
+                                                                   (known finding C10/field-unknown-text-error)
+        - the entries of a symbols list are strings                (known finding C10/symbols-nonstring-empty-text)
+        - an import struct has at most one field named name, one named version, one named max_id
+                                   (of repeated fields the reader takes the last, the specification the first)
+        - an int version of an import lies within int32, an int max_id within int64             (reader limits)
+        - the resulting table has fewer than 2^63 symbols              (limit; covers C10/maxid-overflow)
    (G4, an explicit positive-zero decimal coefficient read as -0, was repaired in ion-go 2deb55e.)
    Everything else is covered: NOP padding at top level, in lists / s-expressions and under any defined field
    name, non-minimal VarUInt / VarInt, length-14 forms of short values, ordered structs (D1), oversized int
    magnitudes, float lengths 0/4/8, several annotations, typed nulls, empty containers, unknown-text symbols,
-   several symbol tables (replacing and appending, imports absent / of any non-struct shape / the
-   $ion_symbol_table marker by SID 3 or by text, open content of any shape, padded and ordered table structs),
+   several symbol tables (replacing and appending, imports absent / of any shape including import declarations
+   with placeholder slots, ignored imports, null / missing / ill-typed fields / the $ion_symbol_table marker by
+   SID 3 or by text, open content of any shape, padded and ordered table structs),
    version markers in mid-stream.
    Statements only; every proof is [exact <lemma>]. *)
 From Coq Require Import String List NArith ZArith Bool Lia.
@@ -142,6 +144,18 @@ Example C03bin_ex :
   sdecode_lim ts_ok_default c03_exotic3 = Some c03_exotic3_values /\
   map proj_tok (fst (traverse ts_ok_default c03_exotic3 false)) = trace_of_spec c03_exotic3_values.
 Proof. split; [|split]; vm_compute; reflexivity. Qed.
+
+(* a table with import declarations and no catalog: {name:"a", version:null.int, max_id:2} (two placeholder slots),
+   a pad, the int 7 (not a declaration), {max_id:1, name:"b", version:0} (one slot; fields in any order),
+   {name:"", max_id:-5} (ignored), then symbols:["x"]: $10 and $12 have unknown text, $13 is x *)
+Definition c03_exotic4 : list N :=
+  [224; 1; 0; 234; 238; 166; 129; 131; 222; 162; 134; 190; 155; 216; 132; 129; 97; 133; 47; 136; 33; 2; 0; 33; 7; 216; 136; 33; 1; 132; 129; 98; 133; 32; 213; 132; 128; 136; 49; 5; 135; 178; 129; 120; 113; 10; 113; 12; 113; 13].
+Example C03bin_imports_ex :
+  sdecode c03_exotic4 = Some [VSymbol (SymSid 10); VSymbol (SymSid 12); VSymbol (SymText (s "x"))] /\
+  within_limits ts_ok_default c03_exotic4 /\
+  map proj_tok (fst (traverse ts_ok_default c03_exotic4 false)) =
+    trace_of_spec [VSymbol (SymSid 10); VSymbol (SymSid 12); VSymbol (SymText (s "x"))].
+Proof. split; [|split]; [vm_compute; reflexivity|vm_compute; discriminate|vm_compute; reflexivity]. Qed.
 
 Print Assumptions C03bin_limits_sound.
 Print Assumptions C03bin_stageA.
